@@ -1,6 +1,7 @@
 #!/bin/sh
 # run every registered quick check on the current tree (evidence files are rewritten); summary at the end
 cd "$(dirname "$0")/.." || exit 3
+[ -x .venv/bin/python ] || bin/setup.sh >/dev/null 2>&1 || { echo "setup failed"; exit 3; }
 TIER=${1:-quick}
 # run_all.sh quick baseline : also (re)write baseline.json (only on the clean tree, before committing)
 BL=""; [ "$2" = "baseline" ] && BL="--write-baseline"
